@@ -55,6 +55,26 @@ RECURSIVE MagOf(_, _)
 MagOf(d, acc) == IF Len(d) = 0 THEN acc ELSE MagOf(Tail2(d, 2), acc * 10 + (d[1] - 48))
 IntOf(t) == LET m == MagOf(StripZeros(Digits(t)), 0) IN IF t[1] = Dash THEN 0 - m ELSE m
 
+\* floating-point destinations: the modelled texts are decimals with at most two fractional digits that
+\* are multiples of 1/4 (exactly representable); the value is carried as the number of quarters.
+Dot == 46
+FracQuarters(f) == IF f = <<>> \/ f = <<48>> \/ f = <<48, 48>> THEN 0
+                   ELSE IF f = <<50, 53>> THEN 1 ELSE IF f = <<53>> \/ f = <<53, 48>> THEN 2 ELSE IF f = <<55, 53>> THEN 3 ELSE -1
+IsQuarterText(t) ==
+   LET d == Digits(t)
+       p == PosOf(d, Dot)
+       ip == IF p = 0 THEN d ELSE SubSeq(d, 1, p - 1)
+       fp == IF p = 0 THEN <<>> ELSE Tail2(d, p + 1) IN
+   /\ Len(ip) > 0 /\ Len(ip) <= 8 /\ \A k \in 1..Len(ip) : IsDigit(ip[k])
+   /\ (p = 0 \/ Len(fp) > 0) /\ FracQuarters(fp) >= 0
+QuartersOf(t) ==
+   LET d == Digits(t)
+       p == PosOf(d, Dot)
+       ip == IF p = 0 THEN d ELSE SubSeq(d, 1, p - 1)
+       fp == IF p = 0 THEN <<>> ELSE Tail2(d, p + 1)
+       m == 4 * MagOf(StripZeros(ip), 0) + FracQuarters(fp) IN
+   IF t[1] = Dash THEN 0 - m ELSE m
+
 \* ---------------------------------------------------------------- keys (property C05)
 \* A key typed on the command line is a short character (kind "s") or a long word (kind "l").
 \* Exact keys always win; a proper prefix designates an argument iff abbreviations are enabled
@@ -141,6 +161,7 @@ ConvElemAt(arg, raw, idx) ==
    LET f == Formatted(arg.formats, 1, raw)
        isint == IF arg.kind = "tup" THEN idx # 1 ELSE ElemIsInt(arg.kind) IN
    IF ~ChecksOK(arg, raw) THEN [ok |-> FALSE, v |-> 0]
+   ELSE IF arg.kind = "dbl" THEN (IF IsQuarterText(f) THEN [ok |-> TRUE, v |-> QuartersOf(f)] ELSE [ok |-> FALSE, v |-> 0])
    ELSE IF isint THEN (IF IsIntText(f) THEN [ok |-> TRUE, v |-> IntOf(f)] ELSE [ok |-> FALSE, v |-> 0])
    ELSE [ok |-> TRUE, v |-> f]
 ConvElem(arg, raw) == ConvElemAt(arg, raw, 0)
